@@ -30,9 +30,12 @@ REQUIRED = ["keysounded_head_joined", "dropped_orphans", "note_inside_hold", "co
 
 
 def anchors():
-    from simfile.notes import group
+    from ..core import pick
 
-    return {"ungroup_notes": group.ungroup_notes, "group_notes": group.group_notes}
+    return pick(
+        "simfile.notes.group:ungroup_notes",
+        "simfile.notes.group:group_notes",
+    )
 
 
 def cases(ctx):
